@@ -393,7 +393,12 @@ def limit_programs(qdiff, schema, gen, rng, n):
         e = schema.ents[en]
         keys = [a for a in e.attrs.values() if a.is_scalar and a.kind == 'req' and a.typ in ('int', 'str', 'bool')]
         ks = rng.sample(keys, min(len(keys), rng.choice([0, 1, 1, 2])))
-        spec = [[en, a.name, rng.random() < 0.4] for a in ks] + [[en, 'id', rng.random() < 0.3]]
+        # the tie-break is the whole primary key (entities of the shared schema may have a composite key)
+        pkn = schema.pk(en) if hasattr(schema, 'pk') else ['id']
+        pkn = [k for k in pkn if e.attrs.get(k) is None or e.attrs[k].is_scalar]
+        if len(pkn) != len(schema.pk(en) if hasattr(schema, 'pk') else ['id']): continue      # a reference inside the key: not ordered here
+        desc = rng.random() < 0.3
+        spec = [[en, a.name, rng.random() < 0.4] for a in ks] + [[en, k, desc] for k in pkn]
         r = rng.random()
         if r < 0.40:
             a = rng.choice([None, 0, 1, 2, 3]); b = rng.choice([None, 1, 2, 3, 5, 50])
